@@ -7,7 +7,7 @@ import Bng.Proof.Failover
   deadline — including instances that were stopped too late, i.e. stale time.AfterFunc callbacks), ends of grace
   sleeps `check j ok dur` (re-validation, then the role-change callback is invoked, answers `ok` and takes `dur`,
   running without the lock), callback returns `commit j`, and operator commands.  The model is the code as repaired
-  (28a60ee, 6b9ce09, aee8e6b, 961093e, 84453e4, 804ff33, bd43000, 302ed70); all clauses hold at full strength.
+  (28a60ee, 6b9ce09, aee8e6b, 961093e, 84453e4, 804ff33, bd43000, 302ed70, 50fae87); all clauses hold at full strength.
 -/
 namespace Bng.Spec.C14
 open Bng.Failover
